@@ -97,7 +97,7 @@ func parseConfig(rbacCfg *rpb.RBAC) (httpfilter.FilterConfig, error) {
 	// Documentation for Rules field.
 	// "At this time, if the RBAC.action is Action.LOG then the policy will be
 	// completely ignored, as if RBAC was not configured." - A41
-	if rbacCfg.Rules == nil || rbacCfg.GetRules().GetAction() == v3rbacpb.RBAC_LOG {
+	if rbacCfg.GetRules() == nil || rbacCfg.GetRules().GetAction() == v3rbacpb.RBAC_LOG {
 		return config{}, nil
 	}
 
